@@ -10,7 +10,7 @@ flock 9
 python3 tools/translate.py coq/Gen > build/translate.log 2>&1 || true
 make -s -C harness -j16 > build/harness.log 2>&1 || { echo "BUILD-FAILED harness (see build/harness.log)"; tail -20 build/harness.log; exit 3; }
 cd coq
-[ -f Makefile ] || coq_makefile -f _CoqProject -o Makefile > /dev/null
+if [ ! -f Makefile ] || [ _CoqProject -nt Makefile ]; then coq_makefile -f _CoqProject -o Makefile > /dev/null; fi
 # -k: a broken proof must not stop the model files from being compiled
 timeout 3000 make -k -j16 > ../build/coq.log 2>&1 || true
 cd ../ocaml
